@@ -47,6 +47,10 @@ def crystal(name):
         return bulk("Mg", orthorhombic=True), "C"          # hcp in its orthohexagonal (C-centred) cell
     if name == "NaCl":
         return bulk("NaCl", "rocksalt", a=5.64, cubic=True), "F"
+    if name == "mixedI":
+        return Atoms("O2Ti", scaled_positions=[(0, 0, 0), (0.5, 0.5, 0.5), (0.21, 0.33, 0.12)], cell=(4.0, 4.0, 4.0), pbc=True), "P"
+    if name == "mixedC":
+        return Atoms("O2Ti", scaled_positions=[(0.1, 0.1, 0.3), (0.6, 0.6, 0.3), (0.27, 0.4, 0.77)], cell=(3.0, 4.0, 5.0), pbc=True), "P"
     if name == "CsCl":
         return bulk("CsCl", "cesiumchloride", a=4.12, cubic=True), "P"
     raise Machinery(name)
@@ -73,6 +77,14 @@ def reflection_event(centering, m=3):
 
 
 def sf_event(c):
+    import abtem
+    if c.get("small_chunks"):
+        with abtem.config.set({"dask.chunk-size": "6 kB"}):
+            return _sf_event(c)
+    return _sf_event(c)
+
+
+def _sf_event(c):
     from abtem.bloch import StructureFactor
     atoms, cen = crystal(c["crystal"])
     g_max = G_MAX[c["g_max"]]
@@ -82,7 +94,8 @@ def sf_event(c):
         kw["thermal_sigma"] = {s: 0.06 + 0.03 * i for i, s in enumerate(symbols)}
     if c["partial_occupancy"]:
         kw["occupancy"] = {s: 0.7 + 0.2 * i for i, s in enumerate(symbols)}
-    ev = {"k": "sf", "case": c, "centering": cen, "raised": False, "friedel_ppb": 0, "mag": [], "tabulated": [], "translation_ppb": 0, "imag_ppb": 0, "lazy_ppb": 0}
+    ev = {"k": "sf", "case": c, "centering": cen, "raised": False, "friedel_ppb": 0, "mag": [], "tabulated": [], "translation_ppb": 0, "imag_ppb": 0, "lazy_ppb": 0,
+          "auto_dropped_nonzero": 0}
     with warnings.catch_warnings():
         warnings.simplefilter("ignore")
         try:
@@ -106,6 +119,11 @@ def sf_event(c):
             # with the crystal's own centering the table holds allowed reflections only (counted by the lattice sum)
             sfC, hklC, FC = table(atoms, cen)
             ev["tabulated"] = [[int(v) for v in h] for h in hklC if max(abs(int(v)) for v in h) <= 2]
+            # automatic centering detection: every reflection it leaves out must have a vanishing structure factor
+            sfA, hklA, FA = table(atoms, "auto")
+            kept = {tuple(int(v) for v in h) for h in hklA}
+            ev["auto_centering"] = str(getattr(sfA, "centering", ""))
+            ev["auto_dropped_nonzero"] = int(sum(1 for h, i in key.items() if h not in kept and abs(F[i]) / scale > 1e-4))
             # lattice translation of all atoms
             moved = atoms.copy()
             moved.positions += atoms.cell.array[0] * 1 + atoms.cell.array[1] * (-2) + atoms.cell.array[2] * 1
